@@ -119,6 +119,17 @@ CHECKS = {
              "with a wrapper target recording every scanline, and TLC judges each call.",
         design="DESIGN.md §5 C02",
         note=TRUST + "; bounding-box projection of scanlines/touched pixels in harness/src/pipe.rs"),
+    "C19": dict(
+        technique="TLA+ spec Rand: the xorshift step as a GF(2)-linear map; TLC evaluates the order theorems (T^(2^64)=T, "
+                  "cofactor powers # I, explicit inverse) and exhaustively explores a 16-bit analogue; trace validation of "
+                  "the real step on a basis and of the distributions' range relations",
+        text="TLC proves on the specification's step matrix that its order is exactly 2^64-1 (so the non-zero states form "
+             "one cycle and zero is unreachable), validates the method on an exhaustively explored 16-bit analogue, and "
+             "judges the real next_bits on a basis of the state space plus random states, full/strided mantissa sweeps of "
+             "Uniform<f32> over a family of ranges, Uniform<i32>, Bernoulli at the ends, unit disk/ball/circle/sphere and "
+             "the component order of composite distributions.",
+        design="DESIGN.md §5 C19",
+        note=TRUST + "; state inversion and min/max aggregation in harness/src/rand.rs"),
 }
 
 NOT_YET = "check not built yet in this round (see DESIGN.md §9 for the order of work)"
